@@ -72,6 +72,16 @@ HYGIENE = (
                                     ('bin', '<', A.var('j'), A.num('3'))))),
     ('unused-inner', ('quant', 'forall', 'i', A.fld('xs'), ('quant', 'exists', 'j', A.fld('ys'),
                       ('bin', '<', A.var('i'), A.num('3'))))),
+    # a free @i next to a quantifier that binds i is a reference to an undefined event (both orders, also in a
+    # sibling quantifier's domain): the binding must not leak out of the quantifier
+    ('free-use-after-sibling-binder', ('bin', 'and', ('quant', 'forall', 'i', A.fld('xs'), ('bin', '>', A.var('i'), A.num('0'))),
+                                       ('bin', '>', ('field', A.var('i'), 'f'), A.num('0')))),
+    ('free-use-before-sibling-binder', ('bin', 'and', ('bin', '>', ('field', A.var('i'), 'f'), A.num('0')),
+                                        ('quant', 'forall', 'i', A.fld('xs'), ('bin', '>', A.var('i'), A.num('0'))))),
+    ('free-use-in-sibling-domain', ('bin', 'or', ('quant', 'exists', 'i', A.fld('xs'), ('bin', '>', A.var('i'), A.num('0'))),
+                                    ('quant', 'exists', 'j', ('field', A.var('i'), 'arr'), ('bin', '>', A.var('j'), A.num('0'))))),
+    ('free-use-deep-after-binder', ('bin', 'implies', A.not_(('quant', 'exists', 'k', A.fld('xs'), ('bin', '=', A.var('k'), A.num('1')))),
+                                    ('bin', 'in', ('field', A.var('k'), 'g'), ('set', (A.num('1'), A.num('2')))))),
 )
 
 
